@@ -97,6 +97,8 @@ type Sim struct {
 	Actors  [][]byte // tracked account addresses
 	hdr     tmproto.Header
 	tmp     string
+	db      dbm.DB   // the instance's database (for `restart`)
+	oldTmp  []string // home directories of instances replaced by `restart`
 	Halted  string // non-empty once a hook panicked
 	// Pending: the genesis state of this application instance (InitChain, and on a re-import the typed
 	// InitGenesis calls) lives in the deliver state only; it is committed together with the first block
@@ -113,9 +115,18 @@ type emptyOpts struct{}
 
 func (emptyOpts) Get(string) interface{} { return nil }
 
+// lastDB is the database of the application instance built last by newApp (kept by the Sim for `restart`).
+var lastDB dbm.DB
+
 func newApp(home string) *hubapp.App {
+	lastDB = dbm.NewMemDB()
+	return newAppOn(home, lastDB)
+}
+
+// newAppOn builds an application instance over an existing database (loadLatest: the committed state is loaded).
+func newAppOn(home string, db dbm.DB) *hubapp.App {
 	return hubapp.NewApp(
-		emptyOpts{}, hubtypes.Bech32MainPrefix, dbm.NewMemDB(), hubapp.DefaultEncodingConfig(), home, 0, true,
+		emptyOpts{}, hubtypes.Bech32MainPrefix, db, hubapp.DefaultEncodingConfig(), home, 0, true,
 		log.NewNopLogger(), true, map[int64]bool{}, nil, "verif", nil, baseapp.SetChainID(ChainID),
 	)
 }
@@ -154,6 +165,7 @@ func NewWithVPN(c *Config, vpn *vpntypes.GenesisState, swapGS *swaptypes.Genesis
 		return nil, err
 	}
 	a := newApp(tmp)
+	appDB := lastDB
 	cdc := a.Codec
 
 	gen := hubapp.ModuleBasics.DefaultGenesis(cdc)
@@ -256,7 +268,7 @@ func NewWithVPN(c *Config, vpn *vpntypes.GenesisState, swapGS *swaptypes.Genesis
 		return nil, err
 	}
 
-	s := &Sim{App: a, Cfg: c, tmp: tmp, Actors: actors}
+	s := &Sim{App: a, Cfg: c, tmp: tmp, Actors: actors, db: appDB}
 	for d := range denoms {
 		s.Denoms = append(s.Denoms, d)
 	}
@@ -293,6 +305,37 @@ func (s *Sim) Close() {
 	if s.tmp != "" {
 		os.RemoveAll(s.tmp)
 	}
+	for _, t := range s.oldTmp {
+		os.RemoveAll(t)
+	}
+}
+
+// Restart implements `restart`: the process is "restarted" between two blocks - a NEW application instance (new
+// keepers, new message servers: nothing kept in memory survives) is opened over the same database and loads the last
+// committed state. A correct application continues exactly as before; state kept in process memory between blocks
+// (a cached parameter, a counter in a keeper field) is lost, which shows as a different continuation.
+func (s *Sim) Restart() (res string) {
+	if s.InBlock || s.Pending || s.db == nil {
+		return "reject:restart:notcommitted"
+	}
+	defer func() {
+		if x := recover(); x != nil {
+			res = "reject:restart:panic:" + firstWords(fmt.Sprint(x))
+		}
+	}()
+	tmp, err := os.MkdirTemp("", "hubsim")
+	if err != nil {
+		return "reject:restart:" + firstWords(err.Error())
+	}
+	a := newAppOn(tmp, s.db)
+	if a.LastBlockHeight() != s.Height {
+		os.RemoveAll(tmp)
+		return fmt.Sprintf("reject:restart:height_%d_expected_%d", a.LastBlockHeight(), s.Height)
+	}
+	s.oldTmp = append(s.oldTmp, s.tmp)
+	s.tmp = tmp
+	s.App = a
+	return "accept"
 }
 
 // Ctx returns a context over the deliver state (between BeginBlock and Commit) with a fresh event manager.
